@@ -693,6 +693,10 @@ func withCloneSegment(r *sim.Rand, ops []sim.Op, avoid map[string]bool) []sim.Op
 	}
 	a := r.Intn(len(ops))
 	b := a
+	if ops[0].K == "setbase" && r.Chance(1, 4) {
+		// the split lies before SetBase: the clone is given the base (nothing emitted yet)
+		a, b = 0, 1
+	}
 	for b < len(ops) && !avoid[ops[b].K] && b-a < 12 {
 		b++
 	}
